@@ -1,2 +1,11 @@
 #!/bin/sh
-exit 0
+# Builds the framework offline from files on disk: overlay for the seeded go1.26.8 runtime,
+# orchestrator, and a warm build of the simulation worker (the checks rebuild it from /repo anyway).
+cd /verif || exit 2
+export GOFLAGS=-mod=mod GOPROXY=off GOSUMDB=off GOTOOLCHAIN=local
+GO=/opt/veriftools/go1.26.8/bin/go
+mkdir -p build evidence replays
+python3 simrt/gen.py /verif/build /repo /verif/sim/export/zz_verif_export.go || exit 2
+( cd sim && $GO build -o /verif/build/simcheck ./cmd/simcheck ) || exit 2
+/verif/build/simcheck build || exit 2
+echo setup ok
